@@ -206,9 +206,26 @@ func (d *DirectIO) WriteAt(ctx context.Context, f *os.File, block []byte, off in
 		return 0, ErrInjected
 	case Torn:
 		// a torn write: only a prefix reaches the disk, then the process dies.
-		if p.TornN > 0 {
-			if g, e := os.OpenFile(f.Name(), os.O_WRONLY, 0); e == nil {
-				g.WriteAt(block[:p.TornN], off)
+		n := p.TornN
+		if p.TornRel > 0 {
+			// tear inside the region this write actually changes
+			old := make([]byte, len(block))
+			if g, e := os.Open(f.Name()); e == nil {
+				g.ReadAt(old, off)
+				g.Close()
+			}
+			first := 0
+			for first < len(block) && block[first] == old[first] {
+				first++
+			}
+			n = first + p.TornRel
+			if n > len(block) {
+				n = len(block)
+			}
+		}
+		if n > 0 {
+			if g, e := os.OpenFile(f.Name(), os.O_RDWR, 0); e == nil {
+				g.WriteAt(block[:n], off)
 				g.Sync()
 				g.Close()
 			}
